@@ -112,6 +112,14 @@ class VM(PaneBase):
 TWO_TAGGED = t.Union[TYPES['tag_int'], t.Annotated[t.Union[VL, VM], pane.annotations.Tagged('t')]]
 
 
+class HT(PaneBase, out_format='tuple', in_format=('tuple', 'struct')):
+    """tuple layout with a derived (init=False, excluded) field BEFORE fields whose types serialise differently"""
+    a: fractions.Fraction
+    hidden: int = field(init=False, exclude=True, default=0)
+    b: datetime.date = datetime.date(2020, 1, 2)
+    c: t.FrozenSet[int] = frozenset()
+
+
 class IN1(PaneBase):
     """explicit in_names, no out_name: written under the python name, which is always an input name"""
     v: int = field(in_names=('vee',), default=0)
@@ -214,11 +222,18 @@ def native(kind, sel, i, j):
         return dict[str, t.Union[str, int]], {'k': i, 'q': 's'}, None
     elif kind == 34:
         return TWO_TAGGED, (VL.make_unchecked(legacy=i) if sel == 0 else (VM.make_unchecked(legacy=i) if sel == 1 else shared.VX.make_unchecked(a=i))), None
-    else:
+    elif kind == 35:
         return t.List[TWO_TAGGED], [VL.make_unchecked(legacy=i), shared.VY.make_unchecked(a='s')], None
+    elif kind == 36:
+        x = HT.make_unchecked(a=pick2(FRS, sel), b=pick2(DATES, sel), c=frozenset((i, j)))
+        return (HT if sel != 2 else t.Dict[str, t.Optional[HT]]), (x if sel != 2 else {'k': x}), None
+    else:
+        # date first / datetime first: a date-only text is read by both, so the member order decides the type that comes back
+        pane.convert([datetime.datetime(2020, 1, 2, 3, 4)], list[t.Union[datetime.datetime, datetime.date]])
+        return list[t.Union[datetime.date, datetime.datetime]], [pick2(DATES, sel)], None
 
 
-for _k in range(36):
+for _k in range(38):
     for _s in range(3):
         try:
             (_T, _x, _f) = native(_k, _s, 1, 0)
@@ -252,8 +267,8 @@ def body_native_{lo}(kind: int, sel: int, i: int, j: int) -> int:
             return r
     return 0
 '''
-for _lo in range(0, 36, 2):
-    exec(_NAT.format(lo=_lo, hi=min(_lo + 1, 35)))
+for _lo in range(0, 38, 2):
+    exec(_NAT.format(lo=_lo, hi=min(_lo + 1, 37)))
 
 
 @obligation(pre="0 <= which <= 2 and 0 <= e <= 1", witnesses=(0,), timeout=120)
